@@ -7,6 +7,9 @@ fn main() {
         "C05" => engines::c05::main(&args),
         "C06" => engines::c06::main(&args),
         "C28" => engines::c28::main(&args),
+        "C08" => engines::c08::main(&args),
+        "C07" => engines::c07::main(&args),
+        "C09" => engines::c09::main(&args),
         other => {
             eprintln!("unknown engine {other}");
             2
